@@ -163,7 +163,8 @@ Inductive op :=
 | OGetData (i : nat) (w : view) (u r k : nat)          (* s.i<w>.get_data(units, key): the view's own units object *)
 | OSetData (i : nat) (w : view) (u r k : nat) (v : Q)  (* s.i<w>.set_data(v, units, key) *)
 | OAssignView (i j : nat) (w : view)                   (* s_i.<w> = s_j.<w>  (mol / mass / vol of single-phase streams) *)
-| OCopyRow (i : nat) (w : view) (r1 r2 : nat).         (* ms.i<w>[phase r1] = ms.i<w>[phase r2] *)
+| OCopyRow (i : nat) (w : view) (r1 r2 : nat)          (* ms.i<w>[phase r1] = ms.i<w>[phase r2] *)
+| OFromStreams (l : list nat).                          (* MultiStream.from_streams([streams l]) appended to the store *)
 
 Section Model.
 Variable Vf : nat -> phase -> Q -> Q -> Q.       (* molar volume oracle: chemical, phase in {g,l,s}, T, P *)
@@ -594,8 +595,11 @@ Definition copy_row_view h s (w : view) (r1 r2 : nat) : heap * outcome :=
   end.
 
 (* Indexer.reset_chemicals: values follow their chemical; returns the old (data, cache) container *)
+(* chemicals.index(CAS): a chemical id is 8 * variant + CAS number, so that two Chemical objects with one CAS
+   (another molar-volume model, another MW) can sit in different packages *)
+Definition cas (g : nat) : nat := Nat.modulo g 8.
 Definition remap (oldc newc : list nat) (v : vec) : vec :=
-  map (fun g => match index_of g oldc with Some j => nthq v j | None => 0 end) newc.
+  map (fun g => match index_of (cas g) (map cas oldc) with Some j => nthq v j | None => 0 end) newc.
 
 Fixpoint put_rows h (dst : list nat) (vals : list vec) : heap :=
   match dst, vals with
@@ -636,6 +640,40 @@ Definition round_trip h i s (k : nat) : heap * outcome :=
        | Some s1 => (fst (reset_chemicals h1 i s1 (pkg s) (Some cont)), XNone)
        | None => (h1, XErr EIndex)
        end.
+
+(* MultiStream.from_streams: the rows of the new MaterialIndexer ARE the molar vectors of the streams, every stream but
+   the first is re-bound to the first one's ThermalCondition object (its _data_cache is left alone) *)
+Definition retc (s : stream) (t : nat) : stream := mkstream (multi s) (sdata s) (pbox s) (phs s) (pkg s) (cch s) t.
+Fixpoint get_streams h (l : list nat) : option (list stream) :=
+  match l with
+  | [] => Some []
+  | i :: t => match nth_error (streams h) i, get_streams h t with
+              | Some s, Some ss => Some (s :: ss)
+              | _, _ => None
+              end
+  end.
+Definition from_streams h (l : list nat) : heap * outcome :=
+  match l, get_streams h l with
+  | [], _ => (h, XErr EValue)
+  | _, None => (h, XErr EIndex)
+  | b :: others, Some ss =>
+      match ss with
+      | [] => (h, XErr EIndex)
+      | sb :: _ =>
+          if existsb multi ss || existsb (fun s => negb (Nat.eqb (pkg s) (pkg sb))) ss then (h, XDomain)
+          else
+            let ps := psort (map (fun s => getbox h (pbox s)) ss) in
+            if negb (Nat.eqb (length ps) (length ss)) then (h, XErr EValue)
+            else
+              let rowsof := map (fun p => match find (fun s => phase_eqb (getbox h (pbox s)) p) ss with
+                                          | Some s => sdata s | None => O end) ps in
+              let '(a, h1) := new_arr h rowsof in
+              let '(c, h2) := new_cache h1 in
+              let st := map (fun js => if existsb (Nat.eqb (fst js)) others then retc (snd js) (tc sb) else snd js)
+                            (combine (seq O (length (streams h2))) (streams h2)) in
+              (set_streams h2 (st ++ [mkstream true a O ps (pkg sb) c (tc sb)]), XNone)
+      end
+  end.
 
 (* what the harness observes with id(): do the views handed out now wrap the current objects *)
 Definition alias_flags h s : heap * list bool :=
@@ -723,6 +761,7 @@ Definition step h (o : op) : heap * outcome :=
       | None => (h, XErr EIndex)
       end)
   | OCopyRow i w r1 r2 => withs i (fun s => copy_row_view h s w r1 r2)
+  | OFromStreams l => from_streams h l
   end.
 
 Fixpoint run h (ops : list op) : heap * list outcome :=
@@ -860,6 +899,9 @@ Definition stepU U (o : op) : ustate * outcome :=
       let reset := multi s && is_none x &&
                    match psort l with _ :: _ :: _ => negb (phases_eqb (psort l) (phs s)) | _ => false end in
       (if reset then pm_set U1 i None else U1, x))
+  | OFromStreams l =>
+      let '(U1, x) := liftU U (step h o) in
+      (if is_none x then mkU (uh U1) (u_flow U1) (u_fac U1) (upd (u_pm U1 ++ [None]) (length (streams h)) None) else U1, x)
   | _ => liftU U (step h o)
   end.
 
@@ -867,6 +909,78 @@ Fixpoint runU U (ops : list op) : ustate * list outcome :=
   match ops with
   | [] => (U, [])
   | o :: t => let '(U1, x) := stepU U o in let '(U2, xs) := runU U1 t in (U2, x :: xs)
+  end.
+
+(* ---------- which name -> position dict the molar MaterialIndexer consults ----------
+   MaterialIndexer._index_cache is one of the class-level dicts _index_caches[(phases, chemicals)]; it is re-selected
+   (_set_cache) when the indexer is created, by reset_chemicals and by _expand_phases, and nowhere else.  The dict of
+   (phases, chemicals) answers with positions in THOSE phases and chemicals (what the dict holds is C10's subject);
+   the view indexers are created with their own phases and chemicals and never change them.
+   k_ic: per stream, the (phases, package) whose dict its molar indexer points to (None for a ChemicalIndexer). *)
+Record kstate := mkK { ku : ustate; k_ic : list (option (list phase * nat)) }.
+Definition ic_of (s : stream) : option (list phase * nat) := if multi s then Some (phs s, pkg s) else None.
+Definition ic_get K (i : nat) : option (list phase * nat) := nth i (k_ic K) None.
+Definition resolve K (i : nat) s (w : view) (r k : nat) : res (nat * nat) :=
+  if multi s && view_eqb w VMol then
+    match ic_get K i with
+    | Some (ps, pk) =>
+        match pindex ps (nth r (phs s) Pl), index_of (cas (gid (pkg s) k)) (map cas (chems pk)) with
+        | Some r', Some k' => Ok (r', k')
+        | _, _ => Err EKey
+        end
+    | None => Err EOther
+    end
+  else Ok (r, k).
+(* the view a name-keyed operation goes through, and the operation with its key replaced by positions *)
+Definition keyed (o : op) : option (nat * option view * nat * nat) :=
+  match o with
+  | OSet i w r k _ => Some (i, Some w, r, k)
+  | OGetFlow i u r k | OSetFlow i u r k _ => Some (i, dim_of u, r, k)
+  | OGetData i w _ r k | OSetData i w _ r k _ => Some (i, Some w, r, k)
+  | _ => None
+  end.
+Definition rekey (o : op) (r k : nat) : op :=
+  match o with
+  | OSet i w _ _ v => OSet i w r k v
+  | OGetFlow i u _ _ => OGetFlow i u r k
+  | OSetFlow i u _ _ v => OSetFlow i u r k v
+  | OGetData i w u _ _ => OGetData i w u r k
+  | OSetData i w u _ _ v => OSetData i w u r k v
+  | _ => o
+  end.
+(* operations after which the stream's molar indexer is a new object or has re-selected its dict *)
+Definition reselects (o : op) : option nat :=
+  match o with
+  | OPhase i _ | OPhases i _ | OCopyLike i _ | OThermo i _ | ORoundTrip i _ => Some i
+  | _ => None
+  end.
+Definition ic_refresh (h : heap) (ic : list (option (list phase * nat))) (i : nat) :=
+  match nth_error (streams h) i with Some s => upd ic i (ic_of s) | None => ic end.
+
+Definition stepK K (o : op) : kstate * outcome :=
+  let h := uh (ku K) in
+  let o' := match keyed o with
+            | Some (i, Some w, r, k) =>
+                match nth_error (streams h) i with
+                | Some s => match resolve K i s w r k with Ok rk => Ok (rekey o (fst rk) (snd rk)) | Err e => Err e end
+                | None => Ok o
+                end
+            | _ => Ok o
+            end in
+  match o' with
+  | Err e => (K, XErr e)
+  | Ok o1 =>
+      let '(U1, x) := stepU (ku K) o1 in
+      let ic1 := match o with
+                 | OFromStreams _ => if is_none x then ic_refresh (uh U1) (k_ic K ++ [None]) (length (streams h)) else k_ic K
+                 | _ => match reselects o with Some i => ic_refresh (uh U1) (k_ic K) i | None => k_ic K end
+                 end in
+      (mkK U1 ic1, x)
+  end.
+Fixpoint runK K (ops : list op) : kstate * list outcome :=
+  match ops with
+  | [] => (K, [])
+  | o :: t => let '(K1, x) := stepK K o in let '(K2, xs) := runK K1 t in (K2, x :: xs)
   end.
 
 (* ---------- construction of the initial store ---------- *)
@@ -890,6 +1004,7 @@ Definition add_stream h (x : init) : heap :=
   end.
 Definition build (l : list init) : heap := fold_left add_stream l heap0.
 Definition buildU (l : list init) : ustate := mkU (build l) [] [] (repeat None (length l)).
+Definition buildK (l : list init) : kstate := mkK (buildU l) (map ic_of (streams (build l))).
 
 (* ---------- the final observation of every stream ---------- *)
 Record fin := mkfin {
@@ -934,15 +1049,15 @@ Definition fin_eqb (a b : fin) : bool :=
 (* ---------- the stand-ins used by the correspondence harness (props/C11.py) ---------- *)
 Definition vstub (g : nat) (p : phase) (T P : Q) : Q :=
   (Z.of_nat (1 + g) # 64) + (match p with Ps | PS => 1 | Pl | PL => 2 | Pg => 5 end # 8) + T / 4096 + P / 67108864.
-Definition mwstub (g : nat) : Q := nth g [16; 32; 8; 4] 1.
-Definition pkgstub : list (list nat) := [[0; 1; 2]; [2; 0; 3; 1]]%nat.
+Definition mwstub (g : nat) : Q := nth g [16; 32; 8; 4; 1; 1; 1; 1; 64; 2; 128] 1.
+Definition pkgstub : list (list nat) := [[0; 1; 2]; [2; 0; 3; 1]; [8; 9; 10]]%nat.
 
 Definition check_case (utab : list (option (view * Q))) (l : list init) (ops : list op)
            (obs : list outcome) (fins : list fin) : bool :=
-  let '(U1, xs) := runU vstub mwstub pkgstub utab (buildU l) ops in
-  let h1 := uh U1 in
+  let '(K1, xs) := runK vstub mwstub pkgstub utab (buildK l) ops in
+  let h1 := uh (ku K1) in
   list_eqb outcome_eqb xs obs
   && list_eqb fin_eqb (snapshots vstub mwstub pkgstub h1 (length (streams h1)) O) fins.
 Definition show_case (utab : list (option (view * Q))) (l : list init) (ops : list op) :=
-  let '(U1, xs) := runU vstub mwstub pkgstub utab (buildU l) ops in
-  (xs, snapshots vstub mwstub pkgstub (uh U1) (length (streams (uh U1))) O, U1).
+  let '(K1, xs) := runK vstub mwstub pkgstub utab (buildK l) ops in
+  (xs, snapshots vstub mwstub pkgstub (uh (ku K1)) (length (streams (uh (ku K1)))) O, K1).
